@@ -259,12 +259,14 @@ def run(rep, ctx):
     with rep.guard("R18.7"):
         c17.r17_6(rep, M, "R18.7")
         c17.r17_5(rep, M, "R18.7")
+        option_defaults_agree(rep, M, "R18.7")
     rep.rule("R18.9", "the search for the atoms inside a candidate cell covers every periodic image the cell reaches into (shared with C04)")
     with rep.guard("R18.9"):
         from . import c04 as _c04w
         _c04w.within_basis(rep, M, "R18.9")
         _c04w.factors_times_cell(rep, M, "R18.9")
         _c04w.both_directions_alike(rep, M, "R18.9")
+        _c04w.image_labels_add(rep, M, "R18.9")
     rep.rule("R18.10", "no function keeps results in module-level state or functools caches (answers do not depend on what the process analysed before)")
     with rep.guard("R18.10"):
         from .. import symrules as _SRms
@@ -288,3 +290,30 @@ META = {
     "note": "trusted: CPython ast; rules shared with C03/C16/C17 are the same code run under this property's rule ids.",
     "technique": "idiom-shape rules (running maximum, first-occurrence-per-key, +d/-d conjunction) + guard structure on the CFG + shared membership / partition rules",
 }
+
+
+# ----------------------------------------------------------------------------- defaults of the same option agree between entry points
+def option_defaults_agree(rep, M, rid):
+    """C18 is stated for a default-constructed Classifier: the defaults matter. Where two entry points of the package expose the same option and take
+    its default from `matid.data.constants`, they take it from the same constant (Classifier.__init__ and PeriodicFinder.__init__ share four options)"""
+    import collections
+    by = collections.defaultdict(list)
+    for q, d in M.functions().items():
+        a = d.args
+        ps = a.args
+        for p, dv in zip(ps[len(ps) - len(a.defaults):], a.defaults):
+            if isinstance(dv, ast.Attribute) and isinstance(dv.value, ast.Name) and dv.attr.isupper():
+                by[p.arg].append((q, dv))
+    shared = {k: v for k, v in by.items() if len(v) > 1}
+    if len(shared) < 3:
+        raise AnalysisError(f"only {len(shared)} option(s) with a constants default shared between entry points (four confirmed by hand)")
+    for name, sites in sorted(shared.items()):
+        consts = {dv.attr for _, dv in sites}
+        if len(consts) == 1:
+            rep.ok(rid, f"option `{name}` defaults to constants.{consts.pop()} at {len(sites)} entry points")
+        else:
+            shown = ", ".join(f"{q.split('.')[-2]}.{q.split('.')[-1]}: {dv.attr}" for q, dv in sites)
+            q0, d0 = sites[0]
+            rep.violation(rid, f"default of option `{name}`", f"the entry points disagree on the constant ({shown}): a default-constructed Classifier runs the region search "
+                          "with another limit than the finder's own default, e.g. the whole simulation cell is accepted as a 2D unit cell and adsorbates join the region",
+                          M.where(q0, d0))
